@@ -24,7 +24,7 @@ HARNESSES = {
     "c04": [("w_c13", None)],
     "c03": [("w_c13", None)],
     "c18": [("w_c12", ["check_add_value_linear", "check_add_value_hh", "check_update_dict_linear", "check_update_dict_hh"])],
-    "c19": [("w_c08", ["check_c19_callback_raises_w1", "check_c19_callback_raises_w2", "check_c19_dead_worker"])],
+    "c19": [("w_c08", ["check_c19_callback_raises_w1", "check_c19_callback_raises_w2", "check_c19_dead_worker", "check_c19_dead_worker_late", "check_c19_dead_worker_backlog"])],
     "c01": [("w_c12", ["check_add_value_linear", "check_update_dict_linear", "check_update_list_linear", "check_ngram_linear"]), ("w_c15", ["check_linear"])],
     "c09": [("w_c15", ["check_linear", "check_log16", "check_log8"])],
     "c05": [("w_c12", ["check_add_value_linear", "check_add_value_log16", "check_add_value_log8"])],
